@@ -86,6 +86,7 @@ pub fn gen_case(seed: u64, idx: u64, uni: &UniCfg) -> Case {
     let ops = (0..OPS).map(|_| gen_op(&mut rng, &world, wp.alphabet)).collect();
     c.world = Some(world);
     c.jobs = vec![ops];
+    c.umask = *rng.pick(&[0o022u32, 0o022, 0, 0o077, 0o027]);
     c
 }
 
@@ -378,9 +379,13 @@ pub fn eval_case(u: &mut Universe, case: &Case, st: &mut Stats, sample: bool) ->
                 c1.jobs = vec![case.jobs[0][..=i].to_vec()];
             }
             for (clause, detail) in problems {
-                let clause = if links > 20 && detail.contains("ELOOP") { "symlink-budget-differs".to_string() } else { clause };
-                let v = mk_violation(&c1, &out, "C14", &clause, spec_i.name(), detail);
-                st.violation(&v);
+                match eloop_triage(&clause, &detail, !case.uni.no_openat2, links) {
+                    Some(clause) => {
+                        let v = mk_violation(&c1, &out, "C14", &clause, spec_i.name(), detail);
+                        st.violation(&v);
+                    }
+                    None => st.count("probe.kernel_eloop_disagrees_with_itself", 1),
+                }
             }
             break; // the twins are out of lockstep from here on
         }
